@@ -1266,6 +1266,12 @@ def run_reopen_scenario(scn, root):
                 problems.append('fail() on the held lock %s did not return True' % nm)
             if state.endswith('released'):
                 lk.release()
+        if backend in ('file', 'keep'):
+            # somebody looks into the lock files (cat, grep -r, backup): the atime moves, the mtime (the failed marker) does not
+            for nm in names:
+                p = os.path.join(jd, 'locks', nm + '.lock')
+                if os.path.exists(p):
+                    IP.orig['utime'](p, (_time.time(), IP.orig['stat'](p).st_mtime))
         before = answers()
         want = ({nm: R_EXPECT[st_] for nm, st_ in zip(names, states)}, sorted(nm for nm, st_ in zip(names, states) if R_EXPECT[st_][0]))
         if before != want:
